@@ -175,11 +175,29 @@ theorem emitMatchR_spec (C : Cfg) (src : Array UInt8) (ok : CfgOK C src) (st : S
         have e : C.s + (ip + mc + 4 + 1) = C.s + (ip + mc + 4) + 1 := by omega
         rw [e]; exact hti2
 
-theorem stepR_last (C : Cfg) (src : Array UInt8) (st st' : St) (h : stepR C src st = .last st') : st' = st := by
+theorem searchTblR_TI (C : Cfg) (src : Array UInt8) (ok : CfgOK C src) (mfl1 : Nat) (hmfl : mfl1 + 11 ≤ src.size) :
+    ∀ (fuel fip step nb : Nat) (tbl : Array Nat), TI tbl (C.s + src.size) → 1 ≤ step → 64 ≤ nb →
+    TI (searchTblR C mfl1 fuel fip step nb tbl) (C.s + src.size) := by
+  intro fuel
+  induction fuel with
+  | zero => intro fip step nb tbl h _ _; exact h
+  | succ f ih =>
+    intro fip step nb tbl h hstep hnb
+    unfold searchTblR
+    by_cases hend : fip + step > mfl1
+    · rw [if_pos hend]; exact h
+    · rw [if_neg hend]
+      have hst : store C.P.byU16 (C.s + fip) = C.s + fip := store_eq C src ok fip (by omega)
+      rw [hst]
+      exact ih _ _ _ _ (h.set _ _ (by omega)) (shift6 nb hnb) (by omega)
+
+/-- the last step changes nothing but the table (the positions the final search inserted) -/
+theorem stepR_last (C : Cfg) (src : Array UInt8) (ok : CfgOK C src) (hn : 13 ≤ src.size) (st st' : St) (h : stepR C src st = .last st')
+    (hti : TI st.tbl (C.s + src.size)) : st'.anchor = st.anchor ∧ TI st'.tbl (C.s + src.size) := by
   unfold stepR at h
   dsimp only at h
   by_cases hf : st.fin = true
-  · rw [if_pos hf] at h; injection h with h; exact h.symm
+  · rw [if_pos hf] at h; injection h with h; subst h; exact ⟨rfl, hti⟩
   · rw [if_neg hf] at h
     cases hp : st.pending with
     | some m =>
@@ -196,7 +214,16 @@ theorem stepR_last (C : Cfg) (src : Array UInt8) (st st' : St) (h : stepR C src 
       rw [hp] at h
       dsimp only at h
       cases hs : searchR C src (src.size - LZ4V.Gen.MFLIMIT + 1) (src.size + 1) st.ip 1 (C.P.accel <<< LZ4V.Gen.LZ4_skipTrigger) st.tbl with
-      | none => rw [hs] at h; injection h with h; exact h.symm
+      | none =>
+        rw [hs] at h; injection h with h; subst h
+        have c1 : LZ4V.Gen.MFLIMIT = 12 := rfl
+        have c6 : LZ4V.Gen.LZ4_skipTrigger = 6 := rfl
+        have hnb : 64 ≤ C.P.accel <<< LZ4V.Gen.LZ4_skipTrigger := by
+          rw [c6, Nat.shiftLeft_eq]
+          have h64 : (2 : Nat) ^ 6 = 64 := by decide
+          have hacc := ok.ha
+          rw [h64]; omega
+        exact ⟨rfl, searchTblR_TI C src ok _ (by rw [c1]; omega) _ _ _ _ _ hti (Nat.le_refl 1) hnb⟩
       | some r =>
         obtain ⟨ip, m, tbl⟩ := r
         rw [hs] at h
@@ -334,13 +361,12 @@ theorem runR_spec (C : Cfg) (src : Array UInt8) (ok : CfgOK C src) (hn : 13 ≤ 
       exact ⟨InvR_tbl C src st hi (Or.inl (by omega)), fun l stf h => by cases h⟩
     | last st1 =>
       dsimp only
-      have := stepR_last C src st st1 hs
-      subst this
-      refine ⟨InvR_tbl C src st1 hi (Or.inl (by omega)), ?_⟩
+      obtain ⟨la, lt⟩ := stepR_last C src ok hn st st1 hs (InvR_tbl C src st hi (Or.inl (by omega)))
+      refine ⟨lt, ?_⟩
       intro l stf h
       simp only [Option.some.injEq, Prod.mk.injEq] at h
       obtain ⟨rfl, rfl⟩ := h
-      exact ⟨[], by simp, rfl, hi.2.1, (fun s hs => by cases hs), (fun h => absurd rfl h)⟩
+      exact ⟨[], by simp, la.symm, by rw [la]; exact hi.2.1, (fun s hs => by cases hs), (fun h => absurd rfl h)⟩
     | seq s st1 =>
       dsimp only
       obtain ⟨e1, e2, e3, e4, e5, e6, e7⟩ := stepR_seq C src ok hn st s st1 hi hs
